@@ -124,7 +124,8 @@ impl BucketWorld {
         let selected: Vec<ListedObject> = self.objects.iter().filter(|o| o.key.starts_with(&prefix)).cloned().collect();
         let mut selected = crate::s3sim::page_after(selected, req);
         let cap = max_keys.unwrap_or(1000).min(1000);
-        let mut truncated = selected.len() > cap;
+        // max-keys=0 is a legal request: S3 answers with no keys and IsTruncated=false
+        let mut truncated = cap > 0 && selected.len() > cap;
         selected.truncate(cap);
         if self.case.force_truncated {
             truncated = true;
@@ -239,7 +240,7 @@ pub fn check_list(c: &ListCase) -> Check {
     // what must come back
     let cap = if c.archive { 1000 } else { c.max_keys.min(1000) };
     let shown = c.names.len().min(cap);
-    let reported_truncated = c.force_truncated || c.names.len() > cap;
+    let reported_truncated = c.force_truncated || (cap > 0 && c.names.len() > cap);
     match &c.fault {
         ListFault::Status(_) | ListFault::EmptyBody | ListFault::Html | ListFault::CutXml(_) | ListFault::InvalidUtf8 => {
             // no claim beyond totality: a value or an error, never a panic (already ensured by no_panic)
@@ -542,7 +543,7 @@ fn list_case(max_objects: usize) -> impl Strategy<Value = ListCase> {
             vec(size, n),
             vec(decoy(archive), 0..=3),
             vec(decoy(archive), 0..=3),
-            prop_oneof![3 => Just(100usize), 2 => Just(1usize), 2 => 1usize..=20, 1 => Just(1000usize), 1 => prop_oneof![Just(1001usize), Just(u32::MAX as usize), Just(usize::MAX / 2), Just(usize::MAX), Just(isize::MAX as usize / 56 + 1), 1001usize..=usize::MAX]],
+            prop_oneof![3 => Just(100usize), 2 => Just(1usize), 1 => Just(0usize), 2 => 1usize..=20, 1 => Just(1000usize), 1 => prop_oneof![Just(1001usize), Just(u32::MAX as usize), Just(usize::MAX / 2), Just(usize::MAX), Just(isize::MAX as usize / 56 + 1), 1001usize..=usize::MAX]],
             prop_oneof![9 => Just(false), 1 => Just(true)],
             any::<bool>(),
             (any::<bool>(), 0u8..16),
@@ -625,6 +626,7 @@ pub fn classify_list(c: &ListCase) -> CaseInfo {
         .class(c.names.iter().any(|n| n.starts_with(' ') || n.ends_with(' ')), "leading-or-trailing-space")
         .class(fault, "fault")
         .class(c.force_truncated || c.names.len() > if c.archive { 1000 } else { c.max_keys }, "truncated")
+        .class(!c.archive && c.max_keys == 0 && !c.names.is_empty(), "max-keys-zero")
         .class(!c.decoys_before.is_empty() || !c.decoys_after.is_empty(), "decoys")
         .class(matches!(c.fault, ListFault::BadSize(..)), "bad-size")
         .class(c.delivery & 1 != 0, "chunked-transfer-encoding")
@@ -684,6 +686,7 @@ pub fn run(ctx: &Ctx, rep: &mut Report) {
     rep.require_class("listings", "archive", 100);
     rep.require_class("listings", "realtime", 100);
     rep.require_class("listings", "archive-names-other-than-volumes", 50);
+    rep.require_class("listings", "max-keys-zero", 30);
 
     rep.prop(
         "downloads",
